@@ -38,12 +38,11 @@ RESPONSE = "response"  # what the harness' response handler puts in a claimed re
 class SlotSpec:
     """One cache object of the explored world."""
 
-    def __init__(self, ident: int, delay: float, future=None, pops: int | None = None, prefix: int = 0) -> None:  # noqa: ANN001
+    def __init__(self, ident: int, delay: float, future=None, pops: int | None = None) -> None:  # noqa: ANN001
         self.ident = ident      # index into Model.idents: slots with the same ident share (prefix, number)
         self.delay = delay
-        self.future = future    # None | "value" | "default" | "exception"
-        self.pops = pops        # ident popped from inside on_timeout
-        self.prefix = prefix
+        self.future = future    # None | "value" | "default" | "exception": what the tied future gets on timeout
+        self.pops = pops        # identity popped from inside on_timeout
 
     def params(self) -> dict:
         return {"ident": self.ident, "delay": self.delay, "future": self.future, "pops": self.pops}
@@ -113,17 +112,18 @@ class World:
     def __init__(self, m: "Model") -> None:
         self.m = m
         self.loop = vloop.new_loop()
+        self.created: list = []       # every task of this world in creation order (strong refs: ids are never reused)
+        self.loop.set_task_factory(self._task_factory)
+        self.adopting: int | None = None
         self.rc = RequestCache()
         self.log: list = []
         self.consumed = 0
         self.viol: list = []          # (key, what) produced by the reference while consuming the log
         self.last_viol_start = 0
-        self.objs = [m.classes[s.prefix](self.rc, m.idents[s.ident][1], s.delay, self, i,
-                                         s.pops) for i, s in enumerate(m.slots)]
+        self.objs = [m.classes[m.idents[s.ident][0]](self.rc, m.idents[s.ident][1], s.delay, self, i, s.pops)
+                     for i, s in enumerate(m.slots)]
         self.futs: list = [None] * len(m.slots)
-        self.tasks: dict = {}         # id(task) -> (task, slot, seq); strong refs so ids are never reused
-        self.known_other: dict = {t_id: t for t_id, t in ((id(t), t) for t in asyncio.all_tasks(self.loop))}
-        self.seq = 0
+        self.tasks: dict = {}         # id(task) -> (slot, seq) for the tasks created inside add(slot)
         self.overlays = [m.overlay_classes[p](self.rc) for p in range(len(m.prefixes))]
         self.sd_requested = False
         self.sd_task = None
@@ -136,11 +136,15 @@ class World:
                 return i
         return "foreign:" + type(obj).__name__
 
-    def _adopt_new_tasks(self, slot: int) -> None:
-        for t in asyncio.all_tasks(self.loop):
-            if id(t) not in self.tasks and id(t) not in self.known_other:
-                self.seq += 1
-                self.tasks[id(t)] = (t, slot, self.seq)
+    def _task_factory(self, loop, coro, **kw):  # noqa: ANN001, ANN003, ANN202
+        t = asyncio.Task(coro, loop=loop, **kw)
+        if self.adopting is not None:
+            self.tasks[id(t)] = (self.adopting, len(self.created))
+        self.created.append(t)
+        return t
+
+    def live_tasks(self) -> list:
+        return [t for t in self.created if not t.done()]
 
     def fut_value(self, slot: int):  # noqa: ANN201
         return self.m.fut_values[slot]
@@ -156,6 +160,7 @@ class World:
             else:
                 obj.register_future(f, self.fut_value(slot))
             self.futs[slot] = f
+        self.adopting = slot
         try:
             if pt is None:
                 r = self.rc.add(obj)
@@ -165,7 +170,8 @@ class World:
             res = "self" if r is obj else ("none" if r is None else "other")
         except Exception as e:  # noqa: BLE001
             res = f"exc:{type(e).__name__}:{e}"
-        self._adopt_new_tasks(slot)
+        finally:
+            self.adopting = None
         self.log.append(("add", slot, self.loop.time(), pt, res))
 
     def do_pop(self, ident: int, via: str) -> None:
@@ -210,7 +216,6 @@ class World:
 
     def do_shutdown(self) -> None:
         self.sd_task = self.loop.create_task(self._shutdown())
-        self.known_other[id(self.sd_task)] = self.sd_task
 
     def run_op(self, ev: tuple) -> None:
         kind = ev[0]
@@ -259,26 +264,31 @@ class World:
 # ------------------------------------------------------------------------------------------------
 
 class Model(core.BfsModel):
-    def __init__(self, name: str, slots: list[SlotSpec], seed: int, idents: list[tuple[int, int]] | None = None,
-                 io_pop: bool = True, pt_values: tuple = (0.0,), ghost: bool = True, cls_pop: bool = False) -> None:
+    def __init__(self, name: str, slots: list[SlotSpec], seed: int, idents: list | None = None,
+                 io_pop: bool = True, pt_values: tuple = (0.0,), handler: bool = False) -> None:
+        """
+        idents: (prefix index, number offset) per identity (default: one prefix, distinct numbers).
+        handler: also pop through pop(cls, number) and through a retrieve_cache-decorated message handler, the latter
+                 with a matching and with a never-registered ("ghost") identifier.
+        """
         self.name, self.slots, self.seed = name, slots, seed
-        base = 7 + 1000 * (seed % 60)
+        self.base = 7 + 1000 * (seed % 60)
         n_ident = max(s.ident for s in slots) + 1
-        # idents: (prefix index, number); default: one prefix, distinct numbers
-        self.idents = [(p, base + n) for p, n in (idents or [(0, i) for i in range(n_ident)])]
+        self.ident_spec = [tuple(x) for x in (idents or [(0, i) for i in range(n_ident)])]
+        assert len(self.ident_spec) == n_ident
+        self.idents = [(p, self.base + n) for p, n in self.ident_spec]
+        self.n_ident = n_ident
         self.ghost = None
-        if ghost:
-            self.idents.append((0, base + 99))  # an identity nobody ever registers ("non-matching identifier")
-            self.ghost = len(self.idents) - 1
-        self.prefixes = [f"c10-{chr(97 + (seed + p) % 26)}" + (":x" if p else "")
+        if handler:
+            self.idents.append((0, self.base + 99))
+            self.ghost = n_ident
+        self.prefixes = [f"c10-{chr(97 + (seed + p) % 26)}" + (":7" if p else "")
                          for p in range(max(p for p, _ in self.idents) + 1)]
         self.classes = [make_cache_class(p) for p in self.prefixes]
         self.overlay_classes = [make_overlay_class(c) for c in self.classes]
-        self.fut_values = []
-        for s in slots:
-            self.fut_values.append({None: None, "default": None, "value": "timeout-value",
-                                    "exception": RuntimeError("request timed out")}[s.future])
-        self.io_pop, self.pt_values, self.cls_pop = io_pop, tuple(pt_values), cls_pop
+        self.fut_values = [{None: None, "default": None, "value": "timeout-value",
+                            "exception": RuntimeError("request timed out")}[s.future] for s in slots]
+        self.io_pop, self.pt_values, self.handler = io_pop, tuple(pt_values), handler
         S, I = range(len(slots)), range(n_ident)  # noqa: E741
         al: list = [("iter",), ("tick",)]
         al += [("add", s) for s in S]
@@ -286,28 +296,55 @@ class Model(core.BfsModel):
         al += [("pop", i) for i in I]
         if io_pop:
             al += [("io", ("pop", i)) for i in I]
-        if cls_pop:
+        if handler:
             al += [("pop_cls", i) for i in I]
-        al += [("resp", i) for i in ([*I, self.ghost] if ghost else I)]
+            al += [("resp", i) for i in [*I, self.ghost]]
         al += [("clear",), ("shutdown",), ("io", ("shutdown",))]
         self.alphabet = al
-        self.n_ident = n_ident
 
     def params(self) -> dict:
         return {"name": self.name, "seed": self.seed, "slots": [s.params() for s in self.slots],
-                "identities": [[self.prefixes[p], n] for p, n in self.idents],
-                "passthrough_timeouts": list(self.pt_values)}
+                "identities": [list(x) for x in self.ident_spec], "io_pop": self.io_pop,
+                "passthrough_timeouts": list(self.pt_values), "handler": self.handler,
+                "identity_names": [[self.prefixes[p], n] for p, n in self.idents]}
+
+    @classmethod
+    def from_params(cls, p: dict) -> "Model":
+        slots = [SlotSpec(x["ident"], x["delay"], x["future"], x["pops"]) for x in p["slots"]]
+        return cls(p["name"], slots, p["seed"], p["identities"], p["io_pop"], tuple(p["passthrough_timeouts"]),
+                   p["handler"])
 
     # --- BfsModel ----------------------------------------------------------------------------------
     def initial(self) -> World:
         return World(self)
 
     def dispose(self, w: World) -> None:
+        # same as VirtualLoop.shutdown(), but without scanning asyncio's global task registry: every task of this
+        # loop went through our task factory
+        loop = w.loop
         try:
-            w.loop.shutdown()
+            for _ in range(5):
+                pending = [t for t in w.created if not t.done()]
+                if not pending:
+                    break
+                for t in pending:
+                    t.cancel()
+                try:
+                    loop.settle(10000)
+                except vloop.LoopStuck:
+                    break
+            for t in w.created:
+                if t.done() and not t.cancelled():
+                    t.exception()
         finally:
+            loop._ready.clear()
+            loop._scheduled.clear()
+            loop._io.clear()
+            asyncio.events._set_running_loop(None)
+            if not loop.is_closed():
+                loop.close()
             w.tasks.clear()
-            w.known_other.clear()
+            w.created.clear()
             w.objs = []
             w.futs = []
             w.overlays = []
@@ -365,7 +402,8 @@ class Model(core.BfsModel):
             d = round(t - now, 6)
             return d if d <= 2 * HORIZON else "far"
 
-        live = list(asyncio.all_tasks(loop))
+        loop.next_timer()  # drops cancelled timers at the head of the heap, as the next _run_once would
+        live = w.live_tasks()
         # pass 1: every task anything still refers to
         enc: dict = {id(t): t for t in live}
         handles = [*loop._ready, *loop._io]
@@ -383,7 +421,7 @@ class Model(core.BfsModel):
         per_slot: dict = {}
         for tid in enc:
             if tid in w.tasks:
-                _, slot, seq = w.tasks[tid]
+                slot, seq = w.tasks[tid]
                 per_slot.setdefault(slot, []).append((seq, tid))
         label: dict = {}
         for slot, lst in per_slot.items():
@@ -431,7 +469,7 @@ class Model(core.BfsModel):
         tasks_desc.sort(key=repr)
 
         timers = []
-        for h in loop._scheduled:  # raw heap layout: ties are broken by it
+        for h in loop._scheduled:  # raw heap layout (cancelled entries included): ties are broken by it
             if h._cancelled:
                 timers.append(("x", off(h._when)))
             else:
@@ -604,33 +642,27 @@ def _fut_ok(want: tuple, got: tuple) -> bool:
 
 def configs(ctx: core.Ctx) -> list[tuple[Model, int]]:
     s = ctx.seed
+    one = [SlotSpec(0, 1.0, "value")]
+    popper = [SlotSpec(0, 1.0, "value"), SlotSpec(1, 1.0, None, pops=0)]
+    twins = [SlotSpec(0, 1.0, "exception"), SlotSpec(0, 2.0, "default")]
+    three = [SlotSpec(0, 1.0, "value"), SlotSpec(1, 2.0, None, pops=0), SlotSpec(0, 3.0)]
+    four = [SlotSpec(0, 1.0, "value"), SlotSpec(1, 1.0, None, pops=0), SlotSpec(0, 2.0, "default"),
+            SlotSpec(2, 3.0, "exception")]
+    four_ids = [(0, 0), (0, 1), (1, 0)]  # the last one: other prefix, same number as the first
     if ctx.thorough:
         return [
-            (Model("one", [SlotSpec(0, 1.0, "value")], s, pt_values=(0.0, 0.5), cls_pop=True), 12),
-            (Model("pair+popper", [SlotSpec(0, 1.0, "value"), SlotSpec(1, 1.0, None, pops=0)], s), 8),
-            (Model("twins", [SlotSpec(0, 1.0, "exception"), SlotSpec(0, 2.0, "default")], s), 8),
-            (Model("three", [SlotSpec(0, 1.0, "value"), SlotSpec(1, 2.0, None, pops=0), SlotSpec(0, 3.0)], s,
-                   io_pop=False), 7),
-            (Model("four", [SlotSpec(0, 1.0, "value"), SlotSpec(1, 1.0, None, pops=0), SlotSpec(0, 2.0, "default"),
-                            SlotSpec(2, 3.0, "exception", prefix=1)], s,
-                   idents=[(0, 0), (0, 1), (1, 0)], io_pop=False, ghost=False), 6),
+            (Model("one", one, s, pt_values=(0.0, 0.5), handler=True), 12),
+            (Model("popper", popper, s), 8),
+            (Model("twins", twins, s), 8),
+            (Model("three", three, s, io_pop=False), 7),
+            (Model("four", four, s, four_ids, io_pop=False), 6),
         ]
     return [
-        (Model("one", [SlotSpec(0, 1.0, "value")], s, pt_values=(0.0, 0.5), cls_pop=True), 9),
-        (Model("pair+popper", [SlotSpec(0, 1.0, "value"), SlotSpec(1, 1.0, None, pops=0)], s), 6),
-        (Model("twins", [SlotSpec(0, 1.0, "exception"), SlotSpec(0, 2.0, "default")], s), 6),
-        (Model("four", [SlotSpec(0, 1.0, "value"), SlotSpec(1, 1.0, None, pops=0), SlotSpec(0, 2.0, "default"),
-                        SlotSpec(2, 3.0, "exception", prefix=1)], s,
-               idents=[(0, 0), (0, 1), (1, 0)], io_pop=False, ghost=False), 4),
+        (Model("one", one, s, pt_values=(0.0, 0.5), handler=True), 8),
+        (Model("popper", popper, s), 5),
+        (Model("twins", twins, s), 5),
+        (Model("four", four, s, four_ids, io_pop=False), 4),
     ]
-
-
-def model_from_params(p: dict) -> Model:
-    for tier in ("quick", "thorough"):
-        for m, _ in configs(core.Ctx("C10", tier, p["seed"], 1)):
-            if m.name == p["name"] and m.params() == p:
-                return m
-    raise ValueError(f"unknown world {p.get('name')!r}")
 
 
 def run(ctx: core.Ctx) -> core.Report:
@@ -683,7 +715,7 @@ ASSUMPTIONS = [
 
 
 def replay(ctx: core.Ctx, data: dict) -> list:
-    m = model_from_params(data["world"])
+    m = Model.from_params(data["world"])
     hist = [_tup(e) for e in data["history"]]
     seams.reseed(("bfs", m.seed))
     w = m.initial()
